@@ -51,24 +51,42 @@ def savedListRoot (items : List Item) : Option Tree :=
   let (ks, md, _, _) := others.foldl step (kids0, [], 0, 0)
   some (.mk { rootInfoFor "root_savedlist" with body := bundleOf md } ks)
 
+def Item.isOther : Item → Bool
+  | .other => true
+  | _ => false
+
+def Item.asRoot : Item → Option Tree
+  | .root t => some t
+  | _ => none
+
+def Item.asRooted : Item → Option (Tree × List String)
+  | .rooted _ r t => some (r, t)
+  | _ => none
+
+/-- one step of collecting the rooted items' roots -/
+def rootedStep (acc : List (String × Nat × Tree)) : Item → Option (List (String × Nat × Tree))
+  | .rooted rid r _ =>
+    match alookup r.name acc with
+    | none => some (acc ++ [(r.name, rid, r)])
+    | some (rid', _) => if rid' = rid then some acc else none
+  | _ => some acc
+
 /-- the rooted items' roots, by name, first occurrence first; `none` = two different roots share a name (refused) -/
-def rootedRoots (items : List Item) : Option (List (String × Nat × Tree)) :=
-  items.foldlM (fun (acc : List (String × Nat × Tree)) x =>
-    match x with
-    | .rooted rid r _ =>
-      match alookup r.name acc with
-      | none => some (acc ++ [(r.name, rid, r)])
-      | some (rid', _) => if rid' = rid then some acc else none
-    | _ => some acc) []
+def rootedRoots (items : List Item) : Option (List (String × Nat × Tree)) := items.foldlM rootedStep []
+
+/-- the whole trees a list is written as: the shared root of everything unrooted (if any), then the given Roots in
+    the order of the list -/
+def listRoots (items : List Item) : List Tree :=
+  let given := items.filterMap Item.asRoot
+  match savedListRoot items with
+  | some r => r :: given
+  | none => given
 
 /-- `save` for a list / tuple -/
 def saveList (sess : Session) (uuid : String) (fs : FS) (path : String) (items : List Item) (mc : ModeClass) : R FS := do
-  if items.any (fun x => match x with | .other => true | _ => false) then
+  if items.any Item.isOther then
     throw (.refused "can only save np.array, dictionary, or emd.Node objects")
-  let given := items.filterMap (fun x => match x with | .root t => some t | _ => none)
-  let roots := match savedListRoot items with
-    | some r => r :: given
-    | none => given
+  let roots := listRoots items
   let rr ← match rootedRoots items with
     | some l => pure l
     | none => throw (.refused "two nodes have different roots with identical names")
@@ -85,7 +103,7 @@ def saveList (sess : Session) (uuid : String) (fs : FS) (path : String) (items :
     let newRoot : Tree := .mk { rootInfoFor e.1 with body := e.2.2.info.body } []
     save sess uuid fs path (.rooted newRoot []) mode .yes none) fs
   -- the rooted nodes themselves, alone, by append-over under their root
-  let rooted := items.filterMap (fun x => match x with | .rooted _ r t => some (r, t) | _ => none)
+  let rooted := items.filterMap Item.asRooted
   rooted.foldlM (fun fs (rt : Tree × List String) =>
     save sess uuid fs path (.rooted rt.1 rt.2) "ao" .no (some rt.1.name)) fs
 
